@@ -61,7 +61,7 @@ def run_comp(run, mode, n, maxlen):
     rc, msg = gen_table()
     if rc != 0:
         violation(run, {"broken": "translator cannot read table.rs", "detail": msg}, nofail=True)
-    source_tie(run, ("comp",))
+    source_tie(run, ("comp", "props"))
     rc, out, _ = make(["model/CompCheck.vo"])
     if rc != 0:
         violation(run, {"broken": "model files do not build", "detail": out[-3000:]}, nofail=True)
